@@ -1059,12 +1059,11 @@ theorem opMove_winv_rinv_named (hH : IdxHyp S V vOk) (hR : RefWF S) (w : World) 
     WInv S vOk (opMove S V w p x pos?).1 ∧ WRInv S (opMove S V w p x pos?).1 := by
   have hw : WInv S vOk w := hg.2.1.1.1
   rcases opMove_cases S V w p x pos? with h0 | ⟨k, cx, cp, ver, lo, hi, sph, spk, q, cur, hr, hsp, hq, hlen, hcur, he⟩ |
-    ⟨k, cx, cp, ver, lo, hi, sph, spk, hr, hsp, hany, ⟨hf, he⟩ | ⟨hf, he⟩⟩
+    ⟨k, cx, cp, ver, lo, hi, sph, spk, hr, hsp, hany, hf, he⟩
   · rw [h0]; exact ⟨hw, hg.2.1.1.2.1⟩
   · have := opMove_pos_ginv' S V vOk hH w p x pos? hg k cx cp ver lo hi sph spk q cur hr hq hcur he
       (not_sn_of_named S vOk w hw x k cx hr.locx (hnamed k cx hr.locx))
     exact ⟨this.2.1.1.1, this.2.1.1.2.1⟩
-  · exact absurd ⟨k, cx, cp, hr.locx, hr.locp, (mvName_fail S _ _ _ _).mp hf⟩ (nameFail_impossible S vOk w hw p x)
   · cases hn : itemName S (lastOf cx).1 (lastOf cx).2 with
     | none => exact absurd hn (hnamed k cx hr.locx)
     | some orig =>
